@@ -4,7 +4,8 @@
    A new write, a write under another condition, or a draw that became conditional changes the
    table and breaks this lemma; the model has to be looked at again then. *)
 From Coq Require Import String List.
-From Verif Require Import Gen_RunNumberSites.
+From Coq Require Import ZArith.
+From Verif Require Import Gen_RunNumberSites Gen_FileCounter.
 Import ListNotations.
 Open Scope string_scope.
 
@@ -23,4 +24,17 @@ Definition expected_rn_draws : list (string * string * string * list string) := 
 
 Lemma rn_sites_as_modelled :
   gen_rn_writes = expected_rn_writes /\ gen_rn_draws = expected_rn_draws.
+Proof. split; reflexivity. Qed.
+
+(* The file branch of Service.NewRunNumber (table gen/Gen_FileCounter.v, regenerated from the
+   source on every run): the file and parsing operations the file model of model/RunCounter.v
+   ([fstep]) is written from - os.Stat, a create with WriteFile, ReadFile, ONE strict
+   ParseUint(_, 10, 32) of the bytes read as they are (nothing trimmed, nothing defaulted), a
+   write-back with WriteFile (truncate, then write; no rename).  A reader that forgives, or
+   another way of writing, changes the table and breaks this lemma. *)
+Definition expected_fc_ops : list string := ["Stat"; "WriteFile"; "ReadFile"; "ParseUint"; "WriteFile"].
+Definition expected_fc_parse : string * Z * Z := ("the bytes read", 10%Z, 32%Z).
+
+Lemma file_counter_as_modelled :
+  gen_fc_ops = expected_fc_ops /\ gen_fc_parse = expected_fc_parse.
 Proof. split; reflexivity. Qed.
